@@ -3,6 +3,7 @@ package harness
 // C12 — minimisation reaches the exact boundary on threshold properties.
 
 import (
+	"errors"
 	"flag"
 	"fmt"
 	"math"
@@ -168,11 +169,19 @@ func c12Scenarios(cfg runCfg) []Scenario {
 	return out
 }
 
+type c12Err struct {
+	Code  int
+	Cause error
+	At    *[]int
+}
+
+func (e *c12Err) Error() string { return fmt.Sprintf("state error %d: %v", e.Code, e.Cause) }
+
 func c12Run(t *testing.T, sc Scenario, res *Result) {
 	fl := map[string]string{"rapid.checks": "200000", "rapid.nofailfile": "true", "rapid.shrinktime": "20s", "rapid.seed": fmt.Sprint(sc.Seed%1000003 + 1)}
 	var final any
 	// how the property fails: Fatalf, a panic whose message depends on the data, or a runtime error whose text does
-	mode := int(mix(sc.Seed, 0x12) % 3)
+	mode := int(mix(sc.Seed, 0x12) % 5)
 	failNow := func(x *X, v any) {
 		switch mode {
 		case 0:
@@ -180,6 +189,16 @@ func c12Run(t *testing.T, sc Scenario, res *Result) {
 		case 1:
 			x.inv.Intents = append(x.inv.Intents, Intent{Kind: "panic-data", Panic: true, Msg: fmt.Sprintf("bad value %v", v), Where: "body"})
 			panic(fmt.Sprintf("bad value %v", v))
+		case 3:
+			// an error value built by this very execution (fresh allocations, wrapped cause): same text every time
+			e := fmt.Errorf("limit check: %w", errors.New("over the limit"))
+			x.inv.Intents = append(x.inv.Intents, Intent{Kind: "panic-wrapped-error", Panic: true, Msg: e.Error(), Where: "body"})
+			panic(e)
+		case 4:
+			// a pointer to a struct holding further pointers
+			e := &c12Err{Code: 7, Cause: errors.New("over the limit"), At: &[]int{1, 2, 3}}
+			x.inv.Intents = append(x.inv.Intents, Intent{Kind: "panic-struct-pointer", Panic: true, Msg: fmt.Sprint(e), Where: "body"})
+			panic(e)
 		default:
 			n, _ := intView(v)
 			idx := int(uint64(n)%5) + 3
